@@ -6,6 +6,7 @@ class Facts:
     def __init__(self, path):
         with open(path) as f:
             self.doc = json.load(f)
+        self.renamed = canonicalise_fields(self.doc)
         self.bodies = {b["key"]: b for b in self.doc["bodies"]}
         self.items = self.doc["items"]
         self.adts = {a["path"]: a for a in self.items["adts"]}
@@ -22,6 +23,72 @@ class Facts:
     def struct_fields(self, adt_path):
         a = self.adts[adt_path]
         return a["variants"][0]["fields"]
+
+
+# ---- reference names for renamed private fields ---------------------------------------
+
+def _field_alias(ref_fields, cur_fields):
+    """{current name -> reference name} for one struct: fields are matched by declared type; equally typed fields by name, else by
+    their order among the fields of that type (only when both sides have the same number of them)."""
+    alias = {}
+    by_ty_ref, by_ty_cur = {}, {}
+    for f in ref_fields:
+        by_ty_ref.setdefault(f["ty"], []).append(f["name"])
+    for f in cur_fields:
+        by_ty_cur.setdefault(f["ty"], []).append(f["name"])
+    for ty, cur in by_ty_cur.items():
+        ref = by_ty_ref.get(ty)
+        if not ref or len(ref) != len(cur):
+            continue
+        if set(ref) == set(cur):
+            continue
+        keep = set(ref) & set(cur)
+        r2 = [x for x in ref if x not in keep]
+        c2 = [x for x in cur if x not in keep]
+        for c, r in zip(c2, r2):
+            alias[c] = r
+    taken = {f["name"] for f in cur_fields} - set(alias)
+    return {c: r for c, r in alias.items() if r not in taken}
+
+
+def canonicalise_fields(doc):
+    """rename fields in the fact document to their reference names (spec/field_roles.json); returns {adt: {current: reference}}"""
+    import os
+    path = os.path.join(os.path.dirname(os.path.dirname(os.path.abspath(__file__))), "spec", "field_roles.json")
+    try:
+        ref = json.load(open(path))["structs"]
+    except Exception:
+        return {}
+    renamed = {}
+    for a in doc["items"]["adts"]:
+        if a["is_enum"] or a["path"] not in ref:
+            continue
+        al = _field_alias(ref[a["path"]], a["variants"][0]["fields"])
+        if al:
+            renamed[a["path"]] = al
+            for f in a["variants"][0]["fields"]:
+                f["name"] = al.get(f["name"], f["name"])
+    if not renamed:
+        return renamed
+
+    def fix_place(p):
+        for el in p.get("proj", []):
+            if isinstance(el, dict) and "f" in el and el.get("adt") in renamed and el.get("n") in renamed[el["adt"]]:
+                el["n"] = renamed[el["adt"]][el["n"]]
+
+    def walk(o):
+        if isinstance(o, dict):
+            if "proj" in o and "l" in o:
+                fix_place(o)
+            for v in o.values():
+                walk(v)
+        elif isinstance(o, list):
+            for v in o:
+                walk(v)
+    for b in doc["bodies"]:
+        walk(b.get("blocks"))
+        walk(b.get("promoted"))
+    return renamed
 
 
 # ---- rendering (for reports / debugging) ----------------------------------------------
